@@ -148,6 +148,7 @@ type vfAuthReq struct {
 	Challenge   string
 	RedirectURI string
 	Used        bool
+	Email       string // when set, the e-mail of the user who logged in at the provider (concurrency harness)
 }
 
 type vfTokenCall struct {
@@ -187,6 +188,7 @@ type vfProvider struct {
 	lastID     string
 	minted     []vfMinted
 	issuedRT   map[string]bool // refresh tokens this provider issued: anything else is refused, as a conformant provider would
+	rtOwner    map[string]string // refresh token -> e-mail of the user it was issued to (concurrency harness)
 }
 
 // what the provider answered to a token-endpoint call (the model's `ans` input)
@@ -198,7 +200,7 @@ type vfProvAnswer struct {
 }
 
 func vfNewProvider(clientID string, endSession bool, r *vfRand) *vfProvider {
-	p := &vfProvider{clientID: clientID, endSession: endSession, codes: map[string]*vfAuthReq{}, r: r, issuedRT: map[string]bool{}}
+	p := &vfProvider{clientID: clientID, endSession: endSession, codes: map[string]*vfAuthReq{}, r: r, issuedRT: map[string]bool{}, rtOwner: map[string]string{}}
 	mux := http.NewServeMux()
 	mux.HandleFunc("/.well-known/openid-configuration", func(w http.ResponseWriter, req *http.Request) {
 		p.mu.Lock()
@@ -233,6 +235,15 @@ func vfNewProvider(clientID string, endSession bool, r *vfRand) *vfProvider {
 }
 
 func (p *vfProvider) close() { p.srv.Close() }
+
+// authorizeAs is authorize for a named user (the ID token will carry that e-mail)
+func (p *vfProvider) authorizeAs(email, nonce, challenge, redirectURI string) string {
+	code := p.authorize(nonce, challenge, redirectURI)
+	p.mu.Lock()
+	p.codes[code].Email = email
+	p.mu.Unlock()
+	return code
+}
 
 // authorize simulates the user agent visiting the authorization endpoint and logging in
 func (p *vfProvider) authorize(nonce, challenge, redirectURI string) string {
@@ -296,6 +307,10 @@ func (p *vfProvider) handleToken(w http.ResponseWriter, req *http.Request) {
 		return
 	}
 	nonce := interface{}(nil)
+	owner := ""
+	if call.GrantType == "refresh_token" {
+		owner = p.rtOwner[call.RefreshToken]
+	}
 	if call.GrantType == "authorization_code" {
 		ar, ok := p.codes[call.Code]
 		if !ok || ar.Used {
@@ -315,6 +330,7 @@ func (p *vfProvider) handleToken(w http.ResponseWriter, req *http.Request) {
 			}
 		}
 		nonce = ar.Nonce
+		owner = ar.Email
 	} else if !p.issuedRT[call.RefreshToken] {
 		p.fail(w, 400, "invalid_grant", true)
 		return
@@ -338,6 +354,10 @@ func (p *vfProvider) handleToken(w http.ResponseWriter, req *http.Request) {
 	spec := vfTokSpec{Sub: "user-1", Email: "user@example.com", ExpIn: 3600, IatIn: -5}
 	if sc.Spec != nil {
 		spec = *sc.Spec
+	}
+	if owner != "" {
+		spec.Email = owner
+		spec.Sub = "sub-" + owner
 	}
 	switch sc.NonceMode {
 	case "other":
@@ -369,6 +389,11 @@ func (p *vfProvider) handleToken(w http.ResponseWriter, req *http.Request) {
 		}
 	} else if sc.Rotate {
 		rt = p.newRefreshToken(sc.RefreshLen)
+	}
+	if rt != "" && owner != "" {
+		p.rtOwner[rt] = owner
+	} else if rt == "" && owner != "" && call.GrantType == "refresh_token" {
+		p.rtOwner[call.RefreshToken] = owner
 	}
 	p.answers = append(p.answers, vfProvAnswer{OK: true, IDToken: id, RefreshToken: rt})
 	w.Header().Set("Content-Type", "application/json")
